@@ -23,3 +23,6 @@ Theorem C03_coupling_singleton_writes_parameters_first :
   first_access "parameters" (method_events global_object_events "NonCovalentlyCoupledGroups" "identify_non_covalently_coupled_groups") = Some "W"%string.
 Proof. exact nccg_parameters_written_first. Qed.
 Print Assumptions C03_write_before_read_is_history_independent.
+Theorem C03_no_hidden_state_sites : hidden_state_sites =
+  [("container-mutation", "_version.py", "decorate", "HANDLERS"); ("container-mutation", "_version.py", "register_vcs_handler", "HANDLERS")]%string.
+Proof. exact no_hidden_state. Qed.
